@@ -2,7 +2,7 @@
 # run every check of a tier sequentially; print exit code and wall time per check
 tier=${1:-quick}; shift
 ids=${@:-C01 C02 C03 C04 C05 C06 C07 C08 C09 C10 C11 C12 C13 C14 C15 C16 C17 C18 C19 C20}
-cd /verif
+cd "$(dirname "$0")/.."
 for id in $ids; do
   s=$(date +%s.%N)
   out=$(./check $id --tier $tier 2>/tmp/runall_$id.err); rc=$?
